@@ -106,9 +106,13 @@ fn messages() -> Vec<Vec<u8>> {
     v
 }
 
+/// signer index of the digest-level entry point: the caller frames and hashes the message, the library signs the digest
+const DIGEST_SIGNER: u64 = 99;
+
 fn signer_name(s: u64) -> String {
     match s {
         0 => "BSM::sign_message".into(),
+        DIGEST_SIGNER => "ECDSA::sign_digest_with_deterministic_k(SHA256d(framed message))".into(),
         n => format!("BSM::sign_message_with_k(k={})", NONCES[n as usize - 1]),
     }
 }
@@ -116,6 +120,8 @@ fn signer_name(s: u64) -> String {
 fn signer_key(s: u64) -> &'static str {
     if s == 0 {
         "sign_message"
+    } else if s == DIGEST_SIGNER {
+        "sign_digest_with_deterministic_k"
     } else {
         "sign_message_with_k"
     }
@@ -126,6 +132,7 @@ fn lib_sign(row: &KeyRow, comp: bool, msg: &[u8], signer: u64) -> Result<Result<
         let pk = PrivateKey::from_hex(row.hex).map_err(|e| e.to_string())?.compress_public_key(comp);
         match signer {
             0 => BSM::sign_message(&pk, msg),
+            DIGEST_SIGNER => bsv::ECDSA::sign_digest_with_deterministic_k(&pk, &bsm_digest(msg)),
             n => {
                 let k = PrivateKey::from_hex(NONCES[n as usize - 1]).map_err(|e| e.to_string())?;
                 BSM::sign_message_with_k(&pk, &k, msg)
@@ -302,6 +309,18 @@ fn positive_case(case: &Case, acc: &mut Acc, row: &KeyRow, comp: bool, msg: &[u8
         let rec = secp::recover(&z, &r, &s, recid);
         if rec.as_ref() != Some(&row.q) {
             v.bad("to_compact_bytes/kind=recovery-id-does-not-recover-signer", format!("header {} (recid {}): the reference recovers {:?}", cb[0], recid, rec.map(|p| hex::encode(secp::encode_point(&p, true)))));
+        }
+    }
+    // both recovery entry points return the signer's key in the recorded form
+    if digest_ok {
+        v.acc.transitions += 2;
+        let want = secp::encode_point(&row.q, marker);
+        for (name, got) in [("recover_public_key_from_digest", guard(|| sig.recover_public_key_from_digest(&z32).and_then(|k| k.to_bytes()).map_err(|e| e.to_string())))] {
+            match got {
+                Ok(Ok(k)) if k == want => {}
+                Ok(other) => v.bad(&format!("{}/kind=wrong-result", name), format!("{:?}; the signer's key in the recorded form is {}", other.map(|k| hx(&k)), hx(&want))),
+                Err(p) => v.bad(&format!("{}/kind=panic@{}", name, panic_site(&p)), p),
+            }
         }
     }
     // round trip through the 65-byte encoding
@@ -551,8 +570,11 @@ pub fn spaces(tier: Tier) -> Vec<Space> {
     // 1. positive: key x form x message x signer; inside: 4 prefixes x {direct, after compact round trip} x 4 entry points
     {
         let (rows, msgs) = (rows.clone(), msgs.clone());
-        v.push(Space::new("positive", nk * 2 * nm * nsign, move |case, acc| {
-            let c = coords(case.idx, &[nk, 2, nm, nsign]);
+        v.push(Space::new("positive", nk * 2 * nm * (nsign + 1), move |case, acc| {
+            let mut c = coords(case.idx, &[nk, 2, nm, nsign + 1]);
+            if c[3] == nsign {
+                c[3] = DIGEST_SIGNER;
+            }
             let row = &rows[c[0] as usize];
             let msg = &msgs[c[2] as usize];
             if case.idx % 271 == 3 {
